@@ -51,7 +51,7 @@ var (
 
 func TestMain(m *testing.M) {
 	glue.SilenceKlog()
-	pool = gen.NewPool(glue.NewPoolArgs())
+	pool = gen.NewPool(glue.NewCollectorPoolArgs())
 	if rp := ev.LoadReplay(); rp != nil {
 		ev.RunReplay(rp, func(c Case) *ev.Failure { return runCase(c, nil) })
 	}
